@@ -15,8 +15,8 @@ theorem clash_true_iff (acc : List (Nat × Nat)) (p : Nat × Nat) :
     clash acc p = true ↔ ∃ q ∈ acc, q.1 = p.1 ∨ q.2 = p.2 := by
   simp [clash]
 
-theorem grant_prefix (i : XIn) (rest acc : List (Nat × Nat)) :
-    ∃ l, grant i rest acc = acc ++ l := by
+theorem grant_prefix (rn : Nat × Nat → Bool) (rest acc : List (Nat × Nat)) :
+    ∃ l, grant rn rest acc = acc ++ l := by
   induction rest generalizing acc with
   | nil => exact ⟨[], by simp [grant]⟩
   | cons p rest ih =>
@@ -26,8 +26,8 @@ theorem grant_prefix (i : XIn) (rest acc : List (Nat × Nat)) :
       exact ⟨p :: l, by simp [hl]⟩
     · exact ih acc
 
-theorem grant_noClash (i : XIn) (rest acc : List (Nat × Nat)) (h : NoClash acc) :
-    NoClash (grant i rest acc) := by
+theorem grant_noClash (rn : Nat × Nat → Bool) (rest acc : List (Nat × Nat)) (h : NoClash acc) :
+    NoClash (grant rn rest acc) := by
   induction rest generalizing acc with
   | nil => simpa [grant]
   | cons p rest ih =>
@@ -45,9 +45,9 @@ theorem grant_noClash (i : XIn) (rest acc : List (Nat × Nat)) (h : NoClash acc)
       exact hc.2 a ha
     · exact ih acc h
 
-theorem grant_mem (i : XIn) (rest acc : List (Nat × Nat)) (p : Nat × Nat)
-    (hp : p ∈ grant i rest acc) :
-    p ∈ acc ∨ (p ∈ rest ∧ readyAt i.t1 p.1 = true ∧ readyAt i.t2 p.2 = true) := by
+theorem grant_mem (rn : Nat × Nat → Bool) (rest acc : List (Nat × Nat)) (p : Nat × Nat)
+    (hp : p ∈ grant rn rest acc) :
+    p ∈ acc ∨ (p ∈ rest ∧ rn p = true) := by
   induction rest generalizing acc with
   | nil => left; simpa [grant] using hp
   | cons q rest ih =>
@@ -59,7 +59,7 @@ theorem grant_mem (i : XIn) (rest acc : List (Nat × Nat)) (p : Nat × Nat)
       · simp only [List.mem_append, List.mem_singleton] at h
         rcases h with h | h
         · exact Or.inl h
-        · subst h; exact Or.inr ⟨by simp, hc.1.1, hc.1.2⟩
+        · subst h; exact Or.inr ⟨by simp, hc.1⟩
       · exact Or.inr ⟨by simp [h.1], h.2⟩
     · rcases ih _ hp with h | h
       · exact Or.inl h
@@ -72,9 +72,9 @@ theorem clash_mono (a b : List (Nat × Nat)) (p : Nat × Nat) (h : clash a p = t
   exact ⟨q, by simp [hq], hh⟩
 
 /-- every ready pair of the order is served or blocked by a granted pair sharing a method -/
-theorem grant_maximal (i : XIn) (rest acc : List (Nat × Nat)) (p : Nat × Nat)
-    (hp : p ∈ rest) (h1 : readyAt i.t1 p.1 = true) (h2 : readyAt i.t2 p.2 = true) :
-    clash (grant i rest acc) p = true := by
+theorem grant_maximal (rn : Nat × Nat → Bool) (rest acc : List (Nat × Nat)) (p : Nat × Nat)
+    (hp : p ∈ rest) (h1 : rn p = true) :
+    clash (grant rn rest acc) p = true := by
   induction rest generalizing acc with
   | nil => simp at hp
   | cons q rest ih =>
@@ -83,13 +83,13 @@ theorem grant_maximal (i : XIn) (rest acc : List (Nat × Nat)) (p : Nat × Nat)
     rcases hp with hp | hp
     · subst hp
       by_cases hc : clash acc p = true
-      · simp only [h1, h2, hc, Bool.not_true, Bool.and_false]
-        obtain ⟨l, hl⟩ := grant_prefix i rest acc
+      · simp only [h1, hc, Bool.not_true, Bool.and_false]
+        obtain ⟨l, hl⟩ := grant_prefix rn rest acc
         simp only [Bool.false_eq_true, if_false]
         rw [hl]; exact clash_mono _ _ _ hc
       · have hc' : clash acc p = false := by simpa using hc
-        simp only [h1, h2, hc', Bool.not_false, Bool.and_self, if_true]
-        obtain ⟨l, hl⟩ := grant_prefix i rest (acc ++ [p])
+        simp only [h1, hc', Bool.not_false, Bool.and_self, if_true]
+        obtain ⟨l, hl⟩ := grant_prefix rn rest (acc ++ [p])
         rw [hl]
         apply clash_mono
         rw [clash_true_iff]
@@ -128,14 +128,23 @@ theorem find_snd_of_noClash (l : List (Nat × Nat)) (h : NoClash l) (p : Nat × 
       rw [List.find?_cons, hne]
       exact ih h.2 hp
 
-theorem running_noClash (order : List (Nat × Nat)) (i : XIn) : NoClash (running order i) :=
-  grant_noClash i order [] (by simp [NoClash])
+theorem running_noClash (v1 v2 : Nat → Bool) (order : List (Nat × Nat)) (i : XIn) :
+    NoClash (running v1 v2 order i) :=
+  grant_noClash _ order [] (by simp [NoClash])
 
-theorem running_mem (order : List (Nat × Nat)) (i : XIn) (p : Nat × Nat) (hp : p ∈ running order i) :
-    p ∈ order ∧ readyAt i.t1 p.1 = true ∧ readyAt i.t2 p.2 = true := by
-  rcases grant_mem i order [] p hp with h | h
+theorem running_mem (v1 v2 : Nat → Bool) (order : List (Nat × Nat)) (i : XIn) (p : Nat × Nat)
+    (hp : p ∈ running v1 v2 order i) :
+    p ∈ order ∧ pairRunnable v1 v2 i p = true := by
+  rcases grant_mem _ order [] p hp with h | h
   · simp at h
   · exact h
+
+theorem pairRunnable_iff (v1 v2 : Nat → Bool) (i : XIn) (p : Nat × Nat) :
+    pairRunnable v1 v2 i p = true ↔
+      readyAt i.t1 p.1 = true ∧ readyAt i.t2 p.2 = true ∧
+      (∃ x, resultAt i.t2 p.2 = some x ∧ v1 x = true) ∧ (∃ y, resultAt i.t1 p.1 = some y ∧ v2 y = true) := by
+  unfold pairRunnable
+  cases h1 : resultAt i.t2 p.2 <;> cases h2 : resultAt i.t1 p.1 <;> simp [optAll, and_assoc]
 
 theorem readyAt_result (t : List (Bool × Nat)) (k : Nat) (h : readyAt t k = true) :
     ∃ v, resultAt t k = some v ∧ t[k]? = some (true, v) := by
